@@ -82,6 +82,11 @@ pub struct GenOpts {
   pub plane_wave: bool,
   /// phase-match with the crate's own optimum calls
   pub phase_matched: bool,
+  /// collinear counter-propagating pair, poled: Some(true) = signal backward / idler forward,
+  /// Some(false) = signal forward / idler backward (the orientation the optimum calls produce)
+  pub counter: Option<bool>,
+  /// biaxial crystal cut away from the principal axes (θ 20…75°, φ ∈ {0, 90°}), poled
+  pub tilted_biaxial: bool,
 }
 
 /// wavelengths (pump, signal) inside the window, signal non-degenerate unless `deg`
@@ -105,21 +110,21 @@ fn gen_wavelengths(r: &mut Rng, c: &CrystalType, deg: bool) -> Option<(f64, f64)
 
 /// A random setup built through the crate's own constructors.
 pub fn gen_setup(r: &mut Rng, o: &GenOpts) -> Option<SPDC> {
-  let crystal = r.pick(&CRYSTALS).clone();
-  let pm_type = *r.pick(&PMTYPES);
+  let crystal = if o.tilted_biaxial { r.pick(&[CrystalType::KTP, CrystalType::BiBO_1]).clone() } else { r.pick(&CRYSTALS).clone() };
+  let pm_type = if o.tilted_biaxial && r.coin() { PMType::Type0_o_oo } else { *r.pick(&PMTYPES) };
   let deg = !o.plane_wave && r.below(6) == 0;
   let (lp, ls) = gen_wavelengths(r, &crystal, deg)?;
   let li = ls * lp / (ls - lp);
   let l = if o.plane_wave { r.log_range(0.5e-3, 20e-3) } else { r.log_range(0.3e-3, 30e-3) };
-  let poled = r.coin();
+  let poled = r.coin() || o.counter.is_some() || o.tilted_biaxial;
   let crystal_setup = CrystalSetup {
     crystal,
     pm_type,
-    theta: if poled && r.coin() { 90.0 * DEG } else { r.range(0.0, 90.0) * DEG },
-    phi: if r.coin() { 0.0 * DEG } else { r.range(0.0, 90.0) * DEG },
+    theta: if o.tilted_biaxial { r.range(20.0, 75.0) * DEG } else if poled && r.coin() { 90.0 * DEG } else { r.range(0.0, 90.0) * DEG },
+    phi: if o.tilted_biaxial { if r.coin() { 0.0 * DEG } else { 90.0 * DEG } } else if r.coin() { 0.0 * DEG } else { r.range(0.0, 90.0) * DEG },
     length: l * M,
     temperature: from_celsius_to_kelvin(r.range(15.0, 80.0)),
-    counter_propagation: false,
+    counter_propagation: o.counter.is_some(),
   };
   let (ws, wi, wpx, wpy) = if o.plane_wave {
     let wp = r.log_range(2e-3, 20e-3);
@@ -173,6 +178,10 @@ pub fn gen_setup(r: &mut Rng, o: &GenOpts) -> Option<SPDC> {
     0.0 * M,
     MetersPerMilliVolt::new(r.log_range(0.1e-15, 20e-15)),
   );
+  if o.counter == Some(true) {
+    // backward signal: try_as_optimum keeps it backward (θ = 180°) and makes the idler forward
+    spdc.signal.set_angles(0.0 * RAD, std::f64::consts::PI * RAD);
+  }
   if o.phase_matched {
     // the crate's own optimum: crystal angle (unpoled) or poling period (poled), optimum idler,
     // optimal waist positions.  Failures (panic / Err) are C04/C17 territory: skip.
@@ -454,9 +463,9 @@ fn k_cases(ctx: &mut Ctx) {
       ),
     );
   }
-  let opts = GenOpts { plane_wave: false, phase_matched: false };
-  let opts_pm = GenOpts { plane_wave: false, phase_matched: true };
-  let opts_pw = GenOpts { plane_wave: true, phase_matched: true };
+  let opts = GenOpts { plane_wave: false, phase_matched: false, counter: None, tilted_biaxial: false };
+  let opts_pm = GenOpts { plane_wave: false, phase_matched: true, counter: None, tilted_biaxial: false };
+  let opts_pw = GenOpts { plane_wave: true, phase_matched: true, counter: None, tilted_biaxial: false };
   let mut made = 0;
   let mut tries = 0;
   while made < ctx.n && tries < 20 * ctx.n + 100 {
@@ -676,11 +685,16 @@ fn small_grid(r: &mut Rng, spdc: &SPDC, n: usize) -> ((f64, f64, usize), (f64, f
   ((ws0 - hs, ws0 + 0.9 * hs, n), (wi0 - 0.8 * hi, wi0 + hi, n))
 }
 
+fn pm_abs_c06(spdc: &SPDC, ws: f64, wi: f64, integ: Integrator) -> Option<f64> {
+  let s = spdc.clone();
+  guard(move || (*(phasematch_fiber_coupling(w(ws), w(wi), &s, integ) / PerMeter4::new(1.0))).norm())
+}
+
 /// the statement of C06 on the real code
 fn c06_cases(ctx: &mut Ctx) {
   let mut worst_e = 0.0f64;
-  let opts = GenOpts { plane_wave: false, phase_matched: false };
-  let opts_pm = GenOpts { plane_wave: false, phase_matched: true };
+  let opts = GenOpts { plane_wave: false, phase_matched: false, counter: None, tilted_biaxial: false };
+  let opts_pm = GenOpts { plane_wave: false, phase_matched: true, counter: None, tilted_biaxial: false };
   let mut made = 0;
   let mut tries = 0;
   while made < ctx.n && tries < 30 * ctx.n + 100 {
@@ -695,8 +709,13 @@ fn c06_cases(ctx: &mut Ctx) {
       }
     };
     let swapped = spdc.clone().with_swapped_signal_idler();
-    let divs = *ctx.rng.pick(&[50usize, 20, 10, 50]);
-    let integ = Integrator::Simpson { divs };
+    // Simpson (even and odd requests) and Gauss–Legendre; `divs` also sizes the Simpson sum used for the conditioning
+    // estimate when the rule itself is Gauss–Legendre.  Requests ≥ 130 are left to C05/C07's 1-D predicates: JointSpectrum
+    // evaluates the singles 2-D integral with the same rule, and its rayon reduction over 131² terms is not reproducible
+    // to the statement's tolerances on ill-conditioned setups (two identical calls differed by 1e-5: C15's subject).
+    let divs = *ctx.rng.pick(&[50usize, 20, 10, 50, 51]);
+    let integ = if ctx.rng.below(6) == 0 { Integrator::GaussLegendre { degree: *ctx.rng.pick(&[12usize, 40]) } } else { Integrator::Simpson { divs } };
+    ctx.count(&format!("c06/integrator/{}", match integ { Integrator::Simpson { divs } => format!("simpson{}", divs), Integrator::GaussLegendre { degree } => format!("gl{}", degree), _ => "other".into() }));
     let s1 = spdc.clone();
     let s2 = swapped.clone();
     let js = match guard(move || (s1.joint_spectrum(integ), s2.joint_spectrum(integ))) {
@@ -816,11 +835,47 @@ fn c06_cases(ctx: &mut Ctx) {
         let spec_s_sw: Vec<f64> = j2.jsi_singles_range(range_sw).iter().map(|x| x.value_unsafe).collect();
         let corr = spdcalc::get_counts_correction(&s1);
         let corr_sw = spdcalc::get_counts_correction(&s2);
-        (cc, cc_sw, si, ss_sw, spec_i, spec_s_sw, corr, corr_sw)
+        // the same statement through the *_range route
+        let ja = j1.jsa_range(range);
+        let jb = j2.jsa_range(range_sw);
+        let ia: Vec<f64> = j1.jsi_range(range).iter().map(|x| x.value_unsafe).collect();
+        let ib: Vec<f64> = j2.jsi_range(range_sw).iter().map(|x| x.value_unsafe).collect();
+        (cc, cc_sw, si, ss_sw, spec_i, spec_s_sw, corr, corr_sw, ja, jb, ia, ib)
       });
       match r {
         None => ctx.s("C06.rates", false, "rates/exchange/panic", &det),
-        Some((cc, cc_sw, si, ss_sw, spec_i, spec_s_sw, corr, corr_sw)) => {
+        Some((cc, cc_sw, si, ss_sw, spec_i, spec_s_sw, corr, corr_sw, ja, jb, ia, ib)) => {
+          // jsa_range / jsi_range of S over (ws, wi) vs of swap(S) over (wi, ws)
+          {
+            let xs_v: Vec<f64> = (0..n).map(|k| if n > 1 { (xs.0 * ((n - 1 - k) as f64) + xs.1 * (k as f64)) / ((n - 1) as f64) } else { xs.0 }).collect();
+            let yi_v: Vec<f64> = (0..n).map(|l| if n > 1 { (yi.0 * ((n - 1 - l) as f64) + yi.1 * (l as f64)) / ((n - 1) as f64) } else { yi.0 }).collect();
+            let mut worst = 0.0f64;
+            let mut worst_i = 0.0f64;
+            let mut judged = 0;
+            for k in 0..n {
+              for l in 0..n {
+                let (a, b) = (ja[l * n + k], jb[k * n + l]);
+                let (p, q) = (ia[l * n + k], ib[k * n + l]);
+                if !(a.norm().is_finite() && b.norm().is_finite()) || a.norm() < 1e-290 {
+                  continue;
+                }
+                let kappa = match (pm_abs_c06(&spdc, xs_v[k], yi_v[l], sinteg), simpson_abs_scale(&spdc, xs_v[k], yi_v[l], sdivs)) {
+                  (Some(pv), Some(sc)) if pv > 0.0 => sc / pv,
+                  _ => f64::INFINITY,
+                };
+                if kappa > KAPPA_MAX {
+                  continue;
+                }
+                judged += 1;
+                worst = worst.max(rel_err_c(a, b));
+                if p.is_finite() && q.is_finite() && p.abs() > 1e-290 {
+                  worst_i = worst_i.max(rel_err(p, q));
+                }
+              }
+            }
+            ctx.s("C06.jsa", worst <= 1e-6, "jsa/exchange/range-route", &format!("relerr={:e} judged={} {}", worst, judged, det));
+            ctx.s("C06.jsi", worst_i <= 2.1e-6, "jsi/exchange/range-route", &format!("relerr={:e} judged={} {}", worst_i, judged, det));
+          }
           // idler singles spectrum of S at (ws_k, wi_l) = signal singles spectrum of swap(S) at (wi_l, ws_k)
           let mut worst = 0.0f64;
           let mut nonzero = 0;
@@ -1088,9 +1143,52 @@ fn history_block(ctx: &mut Ctx, spdc: &SPDC, integ: Integrator, desc: &str) {
   ctx.count("c07/history/blocks");
 }
 
+
+/// linearity and invariance through the `*_range` route (parallel iterators over a grid)
+fn range_route(ctx: &mut Ctx, spdc: &SPDC, scaled: &SPDC, f: f64, range: FrequencySpace, integ: Integrator, det: &str) {
+  let (s1, s2) = (spdc.clone(), scaled.clone());
+  let r = guard(move || {
+    let (j1, j2) = (s1.joint_spectrum(integ), s2.joint_spectrum(integ));
+    let v = |x: Vec<spdcalc::JSIUnits<f64>>| x.iter().map(|y| y.value_unsafe).collect::<Vec<f64>>();
+    (
+      v(j1.jsi_range(range)), v(j2.jsi_range(range)),
+      v(j1.jsi_singles_range(range)), v(j2.jsi_singles_range(range)),
+      j1.jsi_normalized_range(range), j2.jsi_normalized_range(range),
+      j1.jsi_singles_normalized_range(range), j2.jsi_singles_normalized_range(range),
+      j1.jsa_normalized_range(range), j2.jsa_normalized_range(range),
+      j1.jsa_range(range),
+    )
+  });
+  let (i1, i2, s1v, s2v, n1, n2, sn1, sn2, an1, an2, amp) = match r {
+    Some(x) => x,
+    None => {
+      ctx.s("C07.linear", false, "linear/range-route-panic", det);
+      return;
+    }
+  };
+  let range_ok = |x: f64| x == 0.0 || (x.abs() > 1e-290 && x.abs() < 1e290);
+  let amp_ok = |x: f64| x == 0.0 || (x > 1e-145 && x < 1e145);
+  let c = f.sqrt();
+  let (mut wl, mut wi_) = (0.0f64, 0.0f64);
+  let mut judged = 0;
+  for k in 0..i1.len() {
+    let fin = [i1[k], i2[k], s1v[k], s2v[k], n1[k], n2[k], sn1[k], sn2[k], an1[k].re, an1[k].im, an2[k].re, an2[k].im].iter().all(|x| x.is_finite());
+    let rng = range_ok(i1[k]) && range_ok(i2[k]) && range_ok(f * i1[k]) && range_ok(s1v[k]) && range_ok(s2v[k]) && range_ok(f * s1v[k])
+      && amp_ok(amp[k].norm()) && amp_ok(amp[k].norm() * c);
+    if !fin || !rng {
+      continue;
+    }
+    judged += 1;
+    wl = wl.max(rel_err(i2[k], f * i1[k])).max(rel_err(s2v[k], f * s1v[k]));
+    wi_ = wi_.max(rel_err(n1[k], n2[k])).max(rel_err(sn1[k], sn2[k])).max(rel_err_c(an1[k], an2[k]));
+  }
+  ctx.s("C07.linear", wl <= 1e-9, "linear/range-route", &format!("relerr={:e} judged={} {}", wl, judged, det));
+  ctx.s("C07.invariant", wi_ <= 1e-9, "invariant/range-route", &format!("relerr={:e} judged={} {}", wi_, judged, det));
+}
+
 fn c07_cases(ctx: &mut Ctx) {
-  let opts = GenOpts { plane_wave: false, phase_matched: false };
-  let opts_pm = GenOpts { plane_wave: false, phase_matched: true };
+  let opts = GenOpts { plane_wave: false, phase_matched: false, counter: None, tilted_biaxial: false };
+  let opts_pm = GenOpts { plane_wave: false, phase_matched: true, counter: None, tilted_biaxial: false };
   let mut made = 0;
   let mut tries = 0;
   let mut worst_lin = 0.0f64;
@@ -1105,8 +1203,10 @@ fn c07_cases(ctx: &mut Ctx) {
         continue;
       }
     };
-    let divs = *ctx.rng.pick(&[10usize, 20, 50]);
-    let integ = Integrator::Simpson { divs };
+    let divs = *ctx.rng.pick(&[10usize, 20, 50, 21]);
+    let is_gl = ctx.rng.below(6) == 0;
+    let integ = if is_gl { Integrator::GaussLegendre { degree: *ctx.rng.pick(&[12usize, 40]) } } else { Integrator::Simpson { divs } };
+    ctx.count(&format!("c07/integrator/{}", match integ { Integrator::Simpson { divs } => format!("simpson{}", divs), Integrator::GaussLegendre { degree } => format!("gl{}", degree), _ => "other".into() }));
     let s1 = spdc.clone();
     let js = match guard(move || s1.joint_spectrum(integ)) {
       Some(j) => j,
@@ -1187,6 +1287,18 @@ fn c07_cases(ctx: &mut Ctx) {
         let ok = (sp.raw.re == expect.re && sp.raw.im == expect.im) || rel_err_c(sp.raw, expect) <= 1e-12 || !(expect.re.is_finite() && expect.im.is_finite());
         ctx.s("C07.factor", ok, "factor/envelope-times-pm", &format!("raw=({:e},{:e}) alpha={:e} pm=({:e},{:e}) {}", sp.raw.re, sp.raw.im, alpha, pm.re, pm.im, det));
       }
+      if !off_box && !below {
+        // the same factorisation under the parallel branch of the 1-D rule (≥ 130 requested divisions); two parallel
+        // reductions of the same sum may differ by rounding proportional to the absolute sum
+        let big = Integrator::Simpson { divs: 130 };
+        let (s1, s2) = (spdc.clone(), spdc.clone());
+        let r = guard(move || (jsa_raw(w(ws), w(wi), &s1, big), *(phasematch_fiber_coupling(w(ws), w(wi), &s2, big) / PerMeter4::new(1.0))));
+        if let (Some((raw, pm)), Some(sc)) = (r, simpson_abs_scale(&spdc, ws, wi, 130)) {
+          let expect = alpha * pm;
+          let ok = !(expect.re.is_finite() && expect.im.is_finite()) || (raw - expect).norm() <= 1e-12 * alpha * sc;
+          ctx.s("C07.factor", ok, "factor/envelope-times-pm/simpson130", &format!("raw=({:e},{:e}) alpha={:e} pm=({:e},{:e}) {}", raw.re, raw.im, alpha, pm.re, pm.im, det));
+        }
+      }
       if in_window(&spdc, ws, wi) {
         let fin = sp.raw.re.is_finite() && sp.raw.im.is_finite() && sp.sraw.is_finite() && sp.jsa.re.is_finite() && sp.jsa.im.is_finite() && sp.jsi.is_finite() && sp.jsis.is_finite();
         ctx.s("C07.finite", fin, "finite/in-window", &format!("raw=({:e},{:e}) sraw={:e} jsi={:e} jsis={:e} {}", sp.raw.re, sp.raw.im, sp.sraw, sp.jsi, sp.jsis, det));
@@ -1197,7 +1309,9 @@ fn c07_cases(ctx: &mut Ctx) {
       // correspondence: jsa_raw with its scale, normalisation layer
       let nodes = simpson_nodes(divs);
       let st = setup_tokens(&v, &spdc, ws, wi);
-      if let Some(sc) = simpson_abs_scale(&spdc, ws, wi, divs) {
+      if is_gl {
+        // the jsa_raw correspondence op mirrors the Simpson sum only
+      } else if let Some(sc) = simpson_abs_scale(&spdc, ws, wi, divs) {
         let out = if sp.raw.re == 0.0 && sp.raw.im == 0.0 { format!("{} {}", cx(sp.raw), fl(0.0)) } else { format!("{} {}", cx(sp.raw), fl(alpha * sc)) };
         ctx.k("jsa_raw", &format!("{} {} {} {}", st, jsa_tokens(&spdc), divs, apod_table(&spdc, &nodes)), &out);
       }
@@ -1344,6 +1458,41 @@ fn c07_cases(ctx: &mut Ctx) {
       }
     }
 
+    // ---- boundary thresholds: exactly the envelope value at the point (not below ⇒ inside), 0.0, and 1.0 at the centre
+    {
+      let d = sigma * ctx.rng.range(0.3, 2.0) * if ctx.rng.coin() { 1.0 } else { -1.0 };
+      let split = ctx.rng.unit();
+      let (ws, wi) = (ws0 + split * d, wi0 + (1.0 - split) * d);
+      let alpha_here = pump_spectral_amplitude(w(ws) + w(wi), &spdc);
+      for (thr_b, bws, bwi, name) in [(alpha_here, ws, wi, "equal-to-envelope"), (0.0, ws, wi, "zero"), (1.0, ws0, wp0 - ws0, "one-at-centre")] {
+        let off_box = bws <= 0.0 || bwi <= 0.0 || bws > wp0 || bwi > wp0 || (bws - bwi).abs() > 0.75 * wp0;
+        let mut st = spdc.clone();
+        st.pump_spectrum_threshold = thr_b;
+        let alpha = pump_spectral_amplitude(w(bws) + w(bwi), &st);
+        if off_box || alpha < thr_b {
+          continue;
+        }
+        let s1 = st.clone();
+        let r = guard(move || {
+          (
+            jsa_raw(w(bws), w(bwi), &s1, integ),
+            jsi_singles_raw(w(bws), w(bwi), &s1, integ),
+            *(phasematch_fiber_coupling(w(bws), w(bwi), &s1, integ) / PerMeter4::new(1.0)),
+            *(phasematch_singles_fiber_coupling(w(bws), w(bwi), &s1, integ) / PerMeter3::new(1.0)),
+          )
+        });
+        let det = format!("thr={:.17e} alpha={:.17e} ws={:.17e} wi={:.17e} divs={} {}", thr_b, alpha, bws, bwi, divs, desc);
+        if let Some((raw, sraw, pm, fs)) = r {
+          let e1 = alpha * pm;
+          let e2 = alpha * alpha * fs;
+          let ok1 = !(e1.re.is_finite() && e1.im.is_finite()) || (raw.re == e1.re && raw.im == e1.im) || rel_err_c(raw, e1) <= 1e-12;
+          let ok2 = !e2.is_finite() || sraw == e2 || rel_err(sraw, e2) <= 1e-12;
+          ctx.s("C07.factor", ok1, &format!("factor/threshold-{}", name), &format!("raw=({:e},{:e}) expect=({:e},{:e}) {}", raw.re, raw.im, e1.re, e1.im, det));
+          ctx.s("C07.singles_factor", ok2, &format!("singles-factor/threshold-{}", name), &format!("sraw={:e} expect={:e} {}", sraw, e2, det));
+        }
+      }
+    }
+
     // ---- linearity in power and deff² over 6 decades; invariance of ratios
     let a = 10f64.powf(ctx.rng.range(-3.0, 3.0));
     let b = 10f64.powf(ctx.rng.range(-3.0, 3.0));
@@ -1422,6 +1571,7 @@ fn c07_cases(ctx: &mut Ctx) {
         (e1, e2, k1, k2, h1, h2, amax)
       });
       two_source_hom(ctx, &spdc, &scaled, a, b, range, sinteg, &det);
+      range_route(ctx, &spdc, &scaled, f, range, sinteg, &det);
       match r {
         None => ctx.s("C07.linear", false, "linear/rates-panic", &det),
         Some((e1, e2, k1, k2, h1, h2, amax)) => {
@@ -1573,12 +1723,36 @@ fn pm_abs(spdc: &SPDC, ws: f64, wi: f64, integ: Integrator) -> Option<f64> {
 }
 
 /// walk-off parameter of the statement: x = L |tan ρ| sqrt((Ws²+Wi²)/Σ)
-fn walkoff_x(v: &View) -> (f64, f64) {
+fn walkoff_x(v: &View, rho: f64) -> (f64, f64) {
   let wp2 = v.wpx * v.wpy;
   let ws2 = v.sig[3] * v.sig[4];
   let wi2 = v.idl[3] * v.idl[4];
   let sigma = wp2 * ws2 + wp2 * wi2 + ws2 * wi2;
-  (v.l * v.rho.tan().abs() * ((ws2 + wi2) / sigma).sqrt(), sigma)
+  (v.l * rho.tan().abs() * ((ws2 + wi2) / sigma).sqrt(), sigma)
+}
+
+/// The statement's pump walk-off angle, computed independently of `Beam::walkoff_angle`:
+/// ρ = atan(−(1/n)·∂n/∂θ) with central differences of the pump's index along ẑ at crystal θ ± h.
+/// `None` where n(θ) is not smooth at the scale of the steps (next to an optic axis): the two step
+/// sizes then disagree and no independent value of ρ exists.
+fn walkoff_independent(spdc: &SPDC) -> Option<f64> {
+  let s = spdc.clone();
+  guard(move || {
+    let th = s.crystal_setup.theta.value_unsafe;
+    let n_at = |t: f64| {
+      let mut cs = s.crystal_setup.clone();
+      cs.theta = t * RAD;
+      *s.pump.refractive_index(s.pump.frequency(), &cs)
+    };
+    let n0 = n_at(th);
+    let d = |h: f64| (n_at(th + h) - n_at(th - h)) / (2.0 * h);
+    let (d1, d2) = (d(1e-4), d(2.5e-5));
+    if !(n0.is_finite() && n0 > 0.0 && d1.is_finite() && d2.is_finite()) || (d1 - d2).abs() > 1e-7 {
+      return None;
+    }
+    Some((-d2 / n0).atan())
+  })
+  .flatten()
 }
 
 /// The statement's precondition "diffraction and walk-off across the crystal are negligible", made
@@ -1605,17 +1779,27 @@ fn diffraction_param(spdc: &SPDC, v: &View) -> f64 {
 }
 
 fn c05_cases(ctx: &mut Ctx) {
-  let opts = GenOpts { plane_wave: true, phase_matched: true };
+  let opts_co = GenOpts { plane_wave: true, phase_matched: true, counter: None, tilted_biaxial: false };
+  let opts_sb = GenOpts { plane_wave: true, phase_matched: true, counter: Some(true), tilted_biaxial: false };
+  let opts_ib = GenOpts { plane_wave: true, phase_matched: true, counter: Some(false), tilted_biaxial: false };
+  let opts_tb = GenOpts { plane_wave: true, phase_matched: true, counter: None, tilted_biaxial: true };
   let mut made = 0;
   let mut tries = 0;
   let mut worst_sinc = 0.0f64;
   let mut worst_peak = 0.0f64;
   while made < ctx.n && tries < 40 * ctx.n + 100 {
     tries += 1;
-    let spdc = match gen_setup(&mut ctx.rng, &opts) {
+    // sub-families: co-propagating (5/8), counter-propagating in both orientations (1/8 each), biaxial tilted cut (1/8)
+    let opts = match tries % 8 {
+      1 => &opts_sb,
+      3 => &opts_ib,
+      5 => &opts_tb,
+      _ => &opts_co,
+    };
+    let spdc = match gen_setup(&mut ctx.rng, opts) {
       Some(s) => s,
       None => {
-        ctx.count("c05/optimum-unavailable-or-rejected");
+        ctx.count(&format!("c05/optimum-unavailable-or-rejected/{}", tries % 8));
         continue;
       }
     };
@@ -1636,7 +1820,11 @@ fn c05_cases(ctx: &mut Ctx) {
     }
     // the statement does not single out an integrator: default Simpson-50, finer Simpson rules
     // (≥ 130 requested divisions take math::simpson's parallel branch) and Gauss–Legendre
-    let integ = match ctx.rng.below(9) {
+    // (GaussKonrod is left out: at perfect phase matching the integrand is constant in z and quad-rs panics — D40 of C12)
+    let integ = match ctx.rng.below(13) {
+      9 => Integrator::Simpson { divs: *ctx.rng.pick(&[51usize, 128, 129, 131]) },
+      10 => Integrator::GaussLegendre { degree: *ctx.rng.pick(&[20usize, 60]) },
+      11 => Integrator::ClenshawCurtis { tolerance: *ctx.rng.pick(&[1e-6, 1e3]) },
       0 => Integrator::Simpson { divs: 100 },
       1 => Integrator::Simpson { divs: 200 },
       2 => Integrator::Simpson { divs: 400 },
@@ -1651,16 +1839,36 @@ fn c05_cases(ctx: &mut Ctx) {
       Integrator::Simpson { divs } => format!("simpson{}", divs),
       Integrator::GaussLegendre { degree } => format!("gl{}", degree),
       Integrator::AdaptiveSimpson { tolerance, max_depth } => format!("adaptive-tol{:e}-depth{}", tolerance, max_depth),
-      _ => "other".into(),
+      Integrator::ClenshawCurtis { tolerance } => format!("clenshaw-tol{:e}", tolerance),
+      Integrator::GaussKonrod { tolerance, max_depth } => format!("gk-tol{:e}-depth{}", tolerance, max_depth),
     };
     let iclass = match integ {
       Integrator::Simpson { .. } => "simpson",
       Integrator::GaussLegendre { .. } => "gl",
       Integrator::AdaptiveSimpson { .. } => "adaptive",
-      _ => "other",
+      Integrator::ClenshawCurtis { .. } => "clenshaw",
+      Integrator::GaussKonrod { .. } => "gk",
     };
     let desc = describe(&spdc);
-    let (x, sigma) = walkoff_x(&v);
+    // ρ of the statement, independent of the accessor the integrand itself reads
+    let rho = match walkoff_independent(&spdc) {
+      Some(r) => r,
+      None => {
+        ctx.count("c05/walkoff/independent-value-unavailable");
+        continue;
+      }
+    };
+    let (x, sigma) = walkoff_x(&v, rho);
+    // auxiliary: the public accessor agrees with it (cuts 12°…90° off the axis, the range in which the crate's
+    // finite-difference walk-off is claimed accurate — C02; nearer to an optic axis both differences are noisy)
+    if spdc.crystal_setup.theta.value_unsafe >= 12f64.to_radians() {
+    ctx.s(
+      "C05.walkoff_accessor",
+      (v.rho - rho).abs() <= 1e-6,
+      "walkoff/accessor-vs-central-difference",
+      &format!("accessor={:.12e} independent={:.12e} {}", v.rho, rho, desc),
+    );
+    }
     let eta = diffraction_param(&spdc, &v);
 
     // random direction in the (ws, wi) plane; x(t) = Δk_z L / 2 along it
@@ -1704,6 +1912,15 @@ fn c05_cases(ctx: &mut Ctx) {
     };
     made += 1;
     count_setup(ctx, "c05", &spdc);
+    ctx.count(&format!(
+      "c05/orientation/{}",
+      match (spdc.signal.direction().z < 0.0, spdc.idler.direction().z < 0.0) {
+        (false, false) => "co-propagating",
+        (true, false) => "signal-backward",
+        (false, true) => "idler-backward",
+        (true, true) => "both-backward",
+      }
+    ));
     ctx.count(&format!("c05/integrator/{}", iname));
     ctx.count(if x == 0.0 { "c05/walkoff/none" } else if x <= C05_X_MAX { "c05/walkoff/negligible" } else { "c05/walkoff/appreciable" });
 
@@ -1735,7 +1952,9 @@ fn c05_cases(ctx: &mut Ctx) {
         let k = ctx.rng.between(1, 3) as f64;
         targets.push(sgn * k * pi * (1.0 + 0.02 * ctx.rng.range(-1.0, 1.0)));
         targets.push(sgn * (k * pi + 1e-3 * ctx.rng.range(-1.0, 1.0)));
+        targets.push(sgn * k * pi);
       }
+      targets.push(0.0);
       for target_x in targets {
         // secant steps from the linear guess (x(t) is not linear for wide detunings)
         let mut t = t0 + target_x / slope;
